@@ -225,11 +225,16 @@ impl Prop for C05 {
         // the second other key is either a plain key or a key whose action is a custom action only
         // (mouse button): it is buffered, counted as "another key" and replayed like any key
         let c_custom = r.chance(250);
+        // re-press population: a different key may be tapped between the tap and the re-press; whatever
+        // its action is (also one that outputs nothing), the re-press is then not "rapid press + release
+        // + press of a key" and gets a fresh decision
+        let between = if pop == "repress" { *r.pick(&["", "", "2", "XX", "(macro Digit2)", "(release-key lctl)", "(macro-repeat Digit2 5)", "(switch ((input real d)) 2 break)"]) } else { "" };
         case.cfg = format!(
             "(defcfg concurrent-tap-hold {} rapid-event-delay {red})\n(defsrc a b c d)\n(deflayer l0 {a_act} 1 {} {d_act})\n",
             if concurrent { "yes" } else { "no" },
-            if c_custom { "mlft" } else { "2" }
+            if !between.is_empty() { between } else if c_custom { "mlft" } else { "2" }
         );
+        case.set("between", between);
         case.set("c_custom", c_custom as u8);
         case.set("variant", variant);
         case.set("h", h);
@@ -241,6 +246,10 @@ impl Prop for C05 {
         if pop != "random" {
             case.set("min_ops", 0);
             case.set("min_cfg", 0);
+        }
+        if pop == "repress" {
+            // the expected outcome depends on the gaps (window, hold time)
+            case.set("min_gaps", 0);
         }
         let (a, b, c, d) = (oscode_of("a"), oscode_of("b"), oscode_of("c"), oscode_of("d"));
         let grid = |r: &mut Rng| -> u32 {
@@ -306,7 +315,16 @@ impl Prop for C05 {
                     case.ops.push(Op::Gap(g1 as u32));
                 }
                 case.ops.push(Op::Release(a));
-                case.ops.push(Op::Gap(t2 as u32));
+                if between.is_empty() {
+                    case.ops.push(Op::Gap(t2 as u32));
+                } else {
+                    let t2a = r.range(2, t2 - 6);
+                    case.ops.push(Op::Gap(t2a as u32));
+                    case.ops.push(Op::Press(c));
+                    case.ops.push(Op::Gap(2));
+                    case.ops.push(Op::Release(c));
+                    case.ops.push(Op::Gap((t2 - t2a - 2) as u32));
+                }
                 case.ops.push(Op::Press(a));
                 case.ops.push(Op::Gap((h + wv + 40) as u32));
                 case.ops.push(Op::Release(a));
@@ -408,7 +426,12 @@ impl Prop for C05 {
                 o.set_fail("C05:not-exactly-one-outcome", format!("second tap-hold key: {n_d} presses produced {n2} marker presses: {}", outs_short(&outs)), vec![]);
             }
         }
+        // the between-key of the re-press population may be a key without (exactly one) output
+        let c_unjudged = !matches!(case.param("between").unwrap_or(""), "" | "2" | "(macro Digit2)");
         for (k, m) in [("b", "Kb1"), ("c", "Kb2")] {
+            if k == "c" && c_unjudged {
+                continue;
+            }
             let n_in = case.ops.iter().filter(|op| matches!(op, Op::Press(c) if *c == oscode_of(k))).count();
             if presses(m) != n_in {
                 o.set_fail("C05:buffered-key-lost-or-duplicated", format!("plain key {k}: {n_in} presses in, {} presses of {m} out: {}", presses(m), outs_short(&outs)), vec![]);
@@ -420,11 +443,11 @@ impl Prop for C05 {
                 .ops
                 .iter()
                 .filter_map(|op| match op {
-                    Op::Press(c) if name_of(*c) == "b" || name_of(*c) == "c" => Some(marker_of(name_of(*c))),
+                    Op::Press(c) if name_of(*c) == "b" || (name_of(*c) == "c" && !c_unjudged) => Some(marker_of(name_of(*c))),
                     _ => None,
                 })
                 .collect();
-            let out_order: Vec<&str> = outs.iter().filter(|e| e.kind == OutKind::Press && (e.key == "Kb1" || e.key == "Kb2")).map(|e| e.key.as_str()).collect();
+            let out_order: Vec<&str> = outs.iter().filter(|e| e.kind == OutKind::Press && (e.key == "Kb1" || (e.key == "Kb2" && !c_unjudged))).map(|e| e.key.as_str()).collect();
             if in_order != out_order && !o.failed() {
                 o.set_fail("C05:buffered-keys-reordered", format!("plain keys pressed in order {in_order:?} came out as {out_order:?}"), vec![]);
             }
@@ -514,7 +537,7 @@ impl Prop for C05 {
             }
         }
         if pop == "repress" && !o.failed() {
-            let inside = case.param_u64("inside").unwrap_or(0) == 1;
+            let inside = case.param_u64("inside").unwrap_or(0) == 1 && case.param("between").unwrap_or("").is_empty();
             // first press: tap. second press: inside the window -> tap marker held until release
             let xs: Vec<&OutEv> = outs.iter().filter(|e| e.key == "X").collect();
             if inside {
